@@ -88,3 +88,14 @@ Definition nv_acts : list action :=
 Example C01_nonvacuous :
   valid_cfg nv_cfg /\ no_teardown nv_acts /\ names (w_trials (run nv_cfg nv_acts)) = [1; 2]%nat /\ g_maxreq (run nv_cfg nv_acts) = 2.
 Proof. split; [unfold valid_cfg; cbn; lia|]. split; [reflexivity|]. split; vm_compute; reflexivity. Qed.
+
+(* The executable monitor that is evaluated on the IMPLEMENTATION's projected states (Corr/WorldMon.budget_walk: at most
+   maxTrialCount trials ever, at most parallelTrialCount non-completed, no new trial once a verdict stands) holds on the
+   model's own projected states for every history: it demands nothing beyond the theorems above, so it cannot alarm on an
+   implementation that agrees with the model. *)
+From KV Require Proofs.MonSound Corr.WorldMon.
+Theorem C01_monitor_sound : forall c acts,
+  valid_cfg c -> no_teardown acts ->
+  WorldMon.budget_walk c [] (WorldC.project (init c)) (MonSound.msteps (init c) acts) = true.
+Proof. exact MonSound.budget_monitor_sound. Qed.
+Print Assumptions C01_monitor_sound.
